@@ -62,7 +62,7 @@ type instance struct {
 	want    map[sharing.ID]string
 	wantErr string
 	// start runs the real runner of party id over rt and returns the party's canonical output text
-	start func(id sharing.ID, ctx context.Context, rt *network.Router) (string, error)
+	start func(id sharing.ID, label string, ctx context.Context, rt *network.Router) (string, error)
 	// common projects an output text to the part all parties must agree on ("" = nothing)
 	common func(string) string
 	// finish: aggregate of the runner outputs (signature text + validity), called when every party returned ok
@@ -72,8 +72,10 @@ type instance struct {
 	deterministic bool
 }
 
-func newTape(seed int64, id sharing.ID) *drive.Tape {
-	return drive.NewTape(vh.NewRng(seed, runnerProp, "tape/a", int(id)))
+// newTape: label "a" is the tape the round-by-round drive uses; the second face of a two-faced
+// party runs on label "b" (a different, equally valid stream of randomness).
+func newTape(seed int64, id sharing.ID, label string) *drive.Tape {
+	return drive.NewTape(vh.NewRng(seed, runnerProp, "tape/"+label, int(id)))
 }
 
 // -- session setup
@@ -90,8 +92,8 @@ func sessionInstance(seed int64) *instance {
 		in.want[id] = tr.Outputs[id]
 	}
 	quorum := hashset.NewComparable(runnerIDs...).Freeze()
-	in.start = func(id sharing.ID, ctx context.Context, rt *network.Router) (string, error) {
-		r, err := rsess.NewSessionRunner(id, quorum, newTape(seed, id))
+	in.start = func(id sharing.ID, label string, ctx context.Context, rt *network.Router) (string, error) {
+		r, err := rsess.NewSessionRunner(id, quorum, newTape(seed, id, label))
 		if err != nil {
 			return "", err
 		}
@@ -137,12 +139,12 @@ func gennaroInstance(seed int64) *instance {
 	}
 	// the same session contexts the drive used (its own session run is deterministic in the seed)
 	st := dsess.RunFull(dsess.Config{Seed: seed, Prop: runnerProp + "/session", Quorum: runnerIDs})
-	in.start = func(id sharing.ID, ctx context.Context, rt *network.Router) (string, error) {
+	in.start = func(id sharing.ID, label string, ctx context.Context, rt *network.Router) (string, error) {
 		sc := st.Ctx[id]
 		if sc == nil {
 			return "", fmt.Errorf("no session context")
 		}
-		r, err := rgen.NewRunner(sc.Clone(), group, ac, fiatshamir.Name, &dgen.LockedReader{R: newTape(seed, id)})
+		r, err := rgen.NewRunner(sc.Clone(), group, ac, fiatshamir.Name, &dgen.LockedReader{R: newTape(seed, id, label)})
 		if err != nil {
 			return "", err
 		}
@@ -213,8 +215,8 @@ func lindell22Instance(seed int64) *instance {
 	bmsg := bip340.Message(msg)
 	var mu sync.Mutex
 	psigs := map[sharing.ID]*rl22.PartialSignature[*k256.Point, *k256.Scalar]{}
-	in.start = func(id sharing.ID, ctx context.Context, rt *network.Router) (string, error) {
-		r, err := l22signing.NewRunner[*k256.Point, *k256.Scalar, bip340.Message](ctxs[id].Clone(), shards[id], fiatshamir.Name, variant, bmsg, newTape(seed, id))
+	in.start = func(id sharing.ID, label string, ctx context.Context, rt *network.Router) (string, error) {
+		r, err := l22signing.NewRunner[*k256.Point, *k256.Scalar, bip340.Message](ctxs[id].Clone(), shards[id], fiatshamir.Name, variant, bmsg, newTape(seed, id, label))
 		if err != nil {
 			return "", err
 		}
@@ -222,9 +224,11 @@ func lindell22Instance(seed int64) *instance {
 		if err != nil {
 			return "", err
 		}
-		mu.Lock()
-		psigs[id] = ps
-		mu.Unlock()
+		if label == "a" {
+			mu.Lock()
+			psigs[id] = ps
+			mu.Unlock()
+		}
 		return partialText(vh.ZHex(ps.Sig.E.Cardinal().Big()), vh.Hex(ps.Sig.R.Bytes()), vh.ZHex(ps.Sig.S.Cardinal().Big())), nil
 	}
 	in.finish = func() (string, []string) {
@@ -311,8 +315,8 @@ func dkls23Instance(seed int64) *instance {
 	}
 	var mu sync.Mutex
 	partials := map[sharing.ID]*rdkls.PartialSignature[*k256.Point, *k256.BaseFieldElement, *k256.Scalar]{}
-	in.start = func(id sharing.ID, ctx context.Context, rt *network.Router) (string, error) {
-		r, err := signing_bbot.NewRunner(ctxs[id].Clone(), suite, shards[id], msg, newTape(seed, id))
+	in.start = func(id sharing.ID, label string, ctx context.Context, rt *network.Router) (string, error) {
+		r, err := signing_bbot.NewRunner(ctxs[id].Clone(), suite, shards[id], msg, newTape(seed, id, label))
 		if err != nil {
 			return "", err
 		}
@@ -320,9 +324,11 @@ func dkls23Instance(seed int64) *instance {
 		if err != nil {
 			return "", err
 		}
-		mu.Lock()
-		partials[id] = ps
-		mu.Unlock()
+		if label == "a" {
+			mu.Lock()
+			partials[id] = ps
+			mu.Unlock()
+		}
 		data, err := serde.MarshalCBOR(ps)
 		if err != nil {
 			return "", err
@@ -375,7 +381,7 @@ type hubMode struct {
 	dup     bool // (c) identical retransmissions: a delivered message stays in flight with probability 1/3
 	delay   bool // (d) one directed link is starved: its messages are delivered only when nothing else is in flight
 	two     bool // (e) two concurrent instances in different namespaces on the same routers
-	tamper  string // "" | "conflict" (a differing retransmission of one message) | "equivocate" (echo round 1 payload altered for one recipient)
+	tamper  string // "" | "conflict" (a differing retransmission of one message) | "equivocate" (echo round 1 payload altered for one recipient) | "twoface" (the cheater runs the protocol twice on different tapes; one run talks to the victim, the other to everybody else)
 	cheater sharing.ID
 }
 
@@ -422,8 +428,15 @@ func runHub(t *testing.T, insts []*instance, mode hubMode, seed int64, idx int) 
 		seq := 0
 		tampered := false
 		q := append([]sharing.ID(nil), runnerIDs...)
-		dels := map[sharing.ID]*ctlDelivery{}
-		rts := map[sharing.ID]*network.Router{}
+		// endpoints: one per party; a two-faced cheater has two (face "a" talks to the victim only,
+		// face "b" to everybody else; both hear everything addressed to the party)
+		type endpoint struct {
+			id    sharing.ID
+			label string
+			d     *ctlDelivery
+			rt    *network.Router
+		}
+		var eps []*endpoint
 		// the starved link of mode (d), the victim of the tampering
 		slowFrom, slowTo := runnerIDs[r.Intn(len(runnerIDs))], runnerIDs[0]
 		for slowTo == slowFrom {
@@ -435,14 +448,29 @@ func runHub(t *testing.T, insts []*instance, mode hubMode, seed int64, idx int) 
 		}
 		tamperAt := 1 + r.Intn(6)
 		nFrom := 0
+		type epSpec struct {
+			id    sharing.ID
+			label string
+		}
+		var specs []epSpec
 		for _, id := range runnerIDs {
+			specs = append(specs, epSpec{id, "a"})
+			if mode.tamper == "twoface" && id == mode.cheater {
+				specs = append(specs, epSpec{id, "b"})
+			}
+		}
+		for _, sp := range specs {
+			id, label := sp.id, sp.label
 			d := &ctlDelivery{self: id, quorum: q, in: make(chan inMsg)}
 			d.sent = func(to sharing.ID, data []byte) {
 				mu.Lock()
 				defer mu.Unlock()
+				if mode.tamper == "twoface" && id == mode.cheater && (label == "a") != (to == victim) {
+					return // this face is not heard by this recipient
+				}
 				seq++
 				incoming = append(incoming, flight{id, to, data, seq, cidOf(data)})
-				if mode.tamper == "" || id != mode.cheater || to != victim || tampered {
+				if mode.tamper == "" || mode.tamper == "twoface" || id != mode.cheater || to != victim || tampered {
 					return
 				}
 				wm, err := serde.UnmarshalCBOR[wireMsg](data)
@@ -474,23 +502,25 @@ func runHub(t *testing.T, insts []*instance, mode hubMode, seed int64, idx int) 
 					}
 				}
 			}
-			dels[id] = d
-			rts[id] = network.NewRouter(d)
+			eps = append(eps, &endpoint{id, label, d, network.NewRouter(d)})
 		}
 		ctx, cancel := context.WithCancel(context.Background())
 		for k, in := range insts {
 			results[k] = map[sharing.ID]*partyResult{}
-			for _, id := range runnerIDs {
+			for _, ep := range eps {
 				pr := &partyResult{}
-				results[k][id] = pr
-				rt := rts[id]
+				if ep.label == "a" {
+					results[k][ep.id] = pr // the second face of a cheater is not an observed party
+				}
+				rt := ep.rt
 				for _, n := range in.ns {
 					rt = rt.Namespaced(n)
 				}
+				id, label := ep.id, ep.label
 				go func() {
 					var out string
 					var err error
-					p := vh.Safely(func() { out, err = in.start(id, ctx, rt) })
+					p := vh.Safely(func() { out, err = in.start(id, label, ctx, rt) })
 					mu.Lock()
 					pr.out, pr.err, pr.panic, pr.done = out, err, p, true
 					mu.Unlock()
@@ -544,9 +574,11 @@ func runHub(t *testing.T, insts []*instance, mode hubMode, seed int64, idx int) 
 				pool = append(pool[:i], pool[i+1:]...)
 			}
 			mu.Unlock()
-			if d := dels[f.to]; d != nil && d.waiting.Load() {
-				d.in <- inMsg{from: f.from, data: f.data}
-				delivered++
+			for _, ep := range eps {
+				if ep.id == f.to && ep.d.waiting.Load() {
+					ep.d.in <- inMsg{from: f.from, data: f.data}
+					delivered++
+				}
 			}
 		}
 		synctest.Wait()
@@ -561,9 +593,9 @@ func runHub(t *testing.T, insts []*instance, mode hubMode, seed int64, idx int) 
 		}
 		mu.Unlock()
 		cancel()
-		for _, id := range runnerIDs {
-			rts[id].Close()
-			close(dels[id].in)
+		for _, ep := range eps {
+			ep.rt.Close()
+			close(ep.d.in)
 		}
 		synctest.Wait()
 	})
@@ -607,9 +639,9 @@ func checkRun(in *instance, mode hubMode, res map[sharing.ID]*partyResult) (obs 
 	obs = strings.Join(parts, " ")
 	honest := func(id sharing.ID) bool { return mode.tamper == "" || id != mode.cheater }
 
-	// deadlock: every message was delivered, nobody aborted, and a runner is still blocked
+	// deadlock: every message was delivered, nobody aborted, and an (honest) runner is still blocked
 	for _, id := range runnerIDs {
-		if !res[id].done && !anyErr {
+		if honest(id) && !res[id].done && !anyErr {
 			fails = append(fails, fmt.Sprintf("runner-%s-deadlock: party %d never returned although every message was delivered and no party aborted", in.proto, id))
 		}
 	}
@@ -704,6 +736,7 @@ func tamperModes() []hubMode {
 	for _, c := range runnerIDs {
 		ms = append(ms, hubMode{name: fmt.Sprintf("conflict-from-%d", c), random: true, tamper: "conflict", cheater: c})
 		ms = append(ms, hubMode{name: fmt.Sprintf("equivocate-from-%d", c), random: true, tamper: "equivocate", cheater: c})
+		ms = append(ms, hubMode{name: fmt.Sprintf("twoface-%d", c), random: true, tamper: "twoface", cheater: c})
 	}
 	return ms
 }
